@@ -266,8 +266,8 @@ type outcome struct {
 	hasRead  bool   // the statement's value is specified
 	read     reflect.Value
 	readAlt  reflect.Value // second admitted rendering of the value (byte >= 0x80 of a string)
-	readAny  bool // statement value not fixed by the statement (membership across kinds)
-	note     string // finer class label for the evidence counters
+	readAny  bool          // statement value not fixed by the statement (membership across kinds)
+	note     string        // finer class label for the evidence counters
 	// apply performs the mutation on the mirror; obsCap() returns the capacity observed on the
 	// anko side of the slice that received an append (capacity after growth is not specified by Go
 	// and therefore adopted from the observation), or -1.
